@@ -1,22 +1,6 @@
 ------------------------------ MODULE SubsetMC ------------------------------
 (* Bounded instances of Subset.tla and the export of every (font, request) with the model's answer. *)
-EXTENDS Subset, TLC, Json
-
-\* glyph 0 .notdef, 1 2 5 simple, 3 = composite(1, 2), 4 = composite(3) (nested)
-CompsA == [g \in 0..5 |-> CASE g = 3 -> {1, 2} [] g = 4 -> {3} [] OTHER -> {}]
-\* 2 = composite(5) forward reference, 4 = composite(1, 2)
-CompsB == [g \in 0..5 |-> CASE g = 2 -> {5} [] g = 4 -> {1, 2} [] OTHER -> {}]
-CmapA == [cp \in {97, 98, 99, 100, 128512} |-> CASE cp = 97 -> 1 [] cp = 98 -> 2 [] cp = 99 -> 3 [] cp = 100 -> 1 [] OTHER -> 5]
-AdvDistinct == [g \in 0..5 |-> 500 + 10 * g]
-AdvTail == [g \in 0..5 |-> IF g >= 3 THEN 700 ELSE 500 + 10 * g]     \* trailing advances repeat
-AdvZeroTail == [g \in 0..5 |-> IF g >= 4 THEN 0 ELSE 600]            \* ... and equal the advance of a gap
-F(id, c, a) == [id |-> id, n |-> 6, comps |-> c, cmap |-> CmapA, adv |-> a]
-FontsQuick == {F(1, CompsA, AdvDistinct), F(2, CompsB, AdvTail)}
-FontsAll == {F(1, CompsA, AdvDistinct), F(2, CompsB, AdvTail), F(3, CompsA, AdvZeroTail), F(4, CompsB, AdvDistinct), F(5, CompsA, AdvTail)}
-GidsQuick == {1, 3, 4, 5, 7}
-GidsAll == {1, 2, 3, 4, 5, 7}
-CpsQuick == {97, 99, 128512, 101}
-CpsAll == {97, 98, 99, 100, 128512, 101}
+EXTENDS Subset, SubsetFonts, TLC, Json
 
 SetSeq(S) == LET RECURSIVE R(_) R(T) == IF T = {} THEN <<>> ELSE LET m == CHOOSE x \in T : \A y \in T : x <= y IN <<m>> \o R(T \ {m}) IN R(S)
 Dump == AtEnd =>
